@@ -11,6 +11,7 @@ import (
 
 	"gorm.io/gorm/clause"
 	"gorm.io/gorm/logger"
+	"gorm.io/gorm/utils/simhook"
 )
 
 type callbackType string
@@ -158,9 +159,11 @@ func ParseWithSpecialTableName(dest interface{}, cacheStore *sync.Map, namer Nam
 	if v, ok := cacheStore.Load(schemaCacheKey); ok {
 		s := v.(*Schema)
 		// Wait for the initialization of other goroutines to complete
+		simhook.Wait(s.initialized, "schema:hit")
 		<-s.initialized
 		return s, s.err
 	}
+	simhook.Yield("schema:miss")
 
 	modelValue := reflect.New(modelType)
 	tableName := namer.TableName(modelType.Name())
@@ -196,6 +199,7 @@ func ParseWithSpecialTableName(dest interface{}, cacheStore *sync.Map, namer Nam
 	if v, ok := cacheStore.Load(schemaCacheKey); ok {
 		s := v.(*Schema)
 		// Wait for the initialization of other goroutines to complete
+		simhook.Wait(s.initialized, "schema:second-hit")
 		<-s.initialized
 		return s, s.err
 	}
@@ -325,9 +329,11 @@ func ParseWithSpecialTableName(dest interface{}, cacheStore *sync.Map, namer Nam
 	if v, loaded := cacheStore.LoadOrStore(schemaCacheKey, schema); loaded {
 		s := v.(*Schema)
 		// Wait for the initialization of other goroutines to complete
+		simhook.Wait(s.initialized, "schema:lost-store")
 		<-s.initialized
 		return s, s.err
 	}
+	simhook.Yield("schema:published")
 
 	defer func() {
 		if schema.err != nil {
